@@ -43,6 +43,14 @@ func eq(a, b reflect.Value, o EqOpts, path string) (bool, string) {
 	if a.Type() != b.Type() {
 		return false, fmt.Sprintf("%s: types %s vs %s", path, a.Type(), b.Type())
 	}
+	// defined types over the well-known structs (`type T url.URL`, `type T time.Time`, ...) compare like them
+	if a.Kind() == reflect.Struct {
+		for _, special := range []reflect.Type{tURL, tTime, tUUID, tAddr} {
+			if a.Type() != special && a.Type().ConvertibleTo(special) && special.ConvertibleTo(a.Type()) {
+				return eq(a.Convert(special), b.Convert(special), o, path)
+			}
+		}
+	}
 	switch a.Type() {
 	case tTime:
 		if o.IgnoreTime {
